@@ -260,6 +260,7 @@ fn check<C: Pv>(c: &Case) -> Report {
     let npo = NpoSel {
         recompose: matches!(c.what, What::ExtNpo | What::ExtNpoCoeff),
         debug_lookups: false,
+        poseidon2: None,
     };
     let setup = match C::setup(&circuit, &pk, &npo) {
         Ok(s) => s,
